@@ -270,7 +270,7 @@ func deferClobbers(fn *core.FuncInfo) []clobber {
 				if guardedByNil(info, lit.Body, as, res) {
 					continue
 				}
-				if keepsFailure(fn, lit, res) {
+				if keepsFailure(fn, lit, res) || neverLosesFailure(fn) {
 					continue
 				}
 				out = append(out, clobber{Pos: as.Pos(), Text: core.ExprString(l) + " " + as.Tok.String() + " " + rhsString(as)})
@@ -751,3 +751,29 @@ func keepsFailure(fn *core.FuncInfo, lit *ast.FuncLit, res types.Object) bool {
 	}
 	return true
 }
+
+// neverLosesFailure: followed exit by exit (the deferred literals run where the function leaves, from the state of
+// that exit), no exit that carried a non-nil error before the deferred literals ran carries anything else after
+// them — e.g. because the named result is nil whenever the literal that assigns it runs.
+func neverLosesFailure(fn *core.FuncInfo) bool {
+	if curWorld == nil {
+		return false
+	}
+	if v, ok := neverLosesMemo[fn]; ok {
+		return v
+	}
+	res := (&flow.Spec{W: curWorld, Depth: 0, DeferAtExit: true}).Analyze(fn)
+	ok := len(res.Exits) > 0
+	for _, ex := range res.Exits {
+		if ex.PreClass == "" {
+			continue // no deferred literal ran on this exit
+		}
+		if ex.PreClass != flow.ExitOK && ex.Class != flow.ExitErr {
+			ok = false
+		}
+	}
+	neverLosesMemo[fn] = ok
+	return ok
+}
+
+var neverLosesMemo = map[*core.FuncInfo]bool{}
